@@ -331,8 +331,6 @@ def showOptBytes : Option (List UInt8) → String
 
 def showR (e : Elem) (r : ElemR) : String :=
   match r.fatal with
-  | some (.panicExt f) => "panic " ++ f
-  | some .panicNil => "panic nil"
   | some er => "err " ++ er.toString
   | none =>
     let rest := showRest r.remain []
